@@ -149,8 +149,13 @@ func VerifC01History(v *verifrt.T) {
 		}
 		v.Assert(uint32(t.Count()) == c01count(ops), "C01.count-is-number-of-distinct-live-pairs")
 	}
-	// the published channel: contract + 1..chan levels, static (no reserved words)
-	m := 2 + v.Choice(v.Bound("chan"), "clen")
+	c01lookupAndCheck(v, t, mqtt, ops, 2+v.Choice(v.Bound("chan"), "clen"))
+}
+
+// c01lookupAndCheck publishes to an arbitrary static channel of m words and compares the
+// result with the reference; then removes everything and checks reclamation.
+func c01lookupAndCheck(v *verifrt.T, t *Trie, mqtt bool, ops []c01op, m int) {
+	// the published channel: contract + levels, static (no reserved words)
 	c := make(Ssid, m)
 	for k := range c {
 		c[k] = v.U32("c", k)
@@ -225,4 +230,39 @@ func c01b2i(b []bool) int {
 		}
 	}
 	return n
+}
+
+// VerifC01Share: share groups with deeper member filters than the history entry reaches:
+// two or three subscriptions of the shape contract / $share / group / level [/ level] with
+// arbitrary group and level words (so members of one group or of two, literal and wildcard
+// levels, '#' in mqtt mode all occur), optionally one ordinary subscription beside them, then a
+// publish on contract / level / level. Exactly one member of every group with a matching
+// member receives, nobody without a matching filter does, and the index is reclaimed.
+func VerifC01Share(v *verifrt.T) {
+	mqtt := v.Bool("mqtt")
+	var t *Trie
+	if mqtt {
+		t = NewTrieMQTT()
+	} else {
+		t = NewTrie()
+	}
+	contract := v.U32("contract")
+	v.Assume(contract != wildcard && contract != multiWildcard && contract != share)
+	n := v.Bound("shares")
+	var ops []c01op
+	for i := 0; i < n; i++ {
+		levels := 1 + v.Choice(2, "slevels", i)
+		f := Ssid{contract, share, v.U32("group", i)}
+		for k := 0; k < levels; k++ {
+			f = append(f, v.U32("sw", i, k))
+		}
+		if i == n-1 && v.Bool("last-is-ordinary") {
+			f = append(Ssid{contract}, f[3:]...)
+		}
+		o := c01op{sub: true, who: i % v.Bound("subs"), f: f}
+		ops = append(ops, o)
+		t.Subscribe(o.f, c01subs[o.who])
+		v.Assert(uint32(t.Count()) == c01count(ops), "C01.count-is-number-of-distinct-live-pairs")
+	}
+	c01lookupAndCheck(v, t, mqtt, ops, 3)
 }
